@@ -1,4 +1,4 @@
-import IncrVerif.Proofs.MapRef16
+import IncrVerif.Proofs.MapRef29
 /-!
 # C01 for programs with `map_ref`: glitch-free propagation and the `didChange` invariant
 
@@ -32,7 +32,7 @@ flag of every map_ref node at or above the parent whose read value changed — t
 map_ref nodes and the stickiness `didChange || did` enter; `mcvm_flags`, `mcv_keepsK`), `MapRef14` (the map_ref node's
 own step resets the flag and re-defines the ghost value).
 
-PROVED HERE (M1, single round; for the model, every state of the fragment, no bounds; partial correctness: each
+PROVED HERE.  M1 (single round; for the model, every state of the fragment, no bounds; partial correctness: each
 statement assumes that the call returns `(.ok _, s')`).
 * `recomputeOne_inv`, `recompute_inv`, `pop_recompute_inv`, `drainHeap_inv`: the drain invariant
   `MapRefH.DInvR env s g x` (`RFrag`; `Sched.Inv (virtEnv env) (virt g s) x`; `KInv env g s`;
@@ -44,9 +44,40 @@ statement assumes that the call returns `(.ok _, s')`).
   AS READ (`State.value env n`, which computes through map_ref nodes) is the from-scratch evaluation
   `MapRefH.evalR env s k n` (`mapRef p i ↦ env.proj p (evalR i)`).  `drainHeap_values`: hence after a successful
   `drainHeap` every necessary node reads its from-scratch value on the graph and variables of the initial state.
+
+M2 (between API actions; `Proofs/MapRef17…`).  `MapRefH.QInvR env s g`: `RFrag`, the invariant `Quiet.QInv` of the
+static fragment for the virtual state `virt g s`, and `KInv env g s`; `QInvRE env s := ∃ g, QInvR env s g`.
+* `stabilise_pending`: from `QInvR` with ARBITRARY pending new/disallowed observers a successful `stabilise` ends in
+  `QInvR` (new ghost values) with both lists empty, every necessary node non-stale and READING `evalR`; the state in
+  which `drainHeap` starts satisfies the drain invariant of M1 (`StabilisedR.drain`).  The linking cascade
+  (`addNewObservers`) is where D1 and D15 live: `Proofs/MapRef20…22` (`becameNecessary_keepsK`) prove that the
+  `didChange` invariant is re-established for every node that becomes necessary — a stale map_ref node is marked
+  together with the map_ref parents that have just linked to it (D1), and a map_ref parent linking to an
+  already-necessary map_ref child whose flag is up is marked (D15); a non-stale map_ref node is unclean only through
+  an unclean map_ref input (`Inherit`, from the consistency of ALL non-stale nodes in `QInv`).
+* `action_keeps`: every API action of the fragment (`MapRefH.MapRefAction env a`: creation of `const`, `var`, pure `map`,
+  `fold`, `zip`, `mapRef`, with operands naming top-level nodes; `observe`, `cloneObs`, `dropObs`, `disallow`; `set`,
+  `modify`, `update`, `replace`, `replaceWith`, `get`; `stabilise`, `isStable`, `stats`) that returns keeps `QInvRE`.
+
+M3 (whole histories).  `init_inv`, `history_inv`: every state reached from `State.init N d` by a history of actions of the
+fragment satisfies `QInvRE`.  `history_every_stabilise`: at every `stabilise` of such a history the state before satisfies
+the invariant, and afterwards EVERY OBSERVER IN USE READS THE FROM-SCRATCH VALUE of its node
+(`MapRefH.ReadsOKR`: `tryGetValue env o = .ok v` with `evalR env s k (node of o) = some v`), no necessary node is stale,
+every observer is in use or unlinked.  This is C01 for programs with map_ref — the statement D1 and D15 violated.
+Non-vacuity: the two corpus histories `corpus/C01/d1_mapref_relink.hist` and `d15_mapref_late_parent.hist` are
+histories of the fragment, run, and their final reads are the from-scratch values (`decide +kernel`).
+
+ASSUMED / NOT PROVED.  Partial correctness throughout: every statement assumes that the call returns `(.ok _, s')`
+(total correctness — that valid histories of the fragment never panic, the analogue of
+`C01History.history_never_panics` — is NOT proved for the extended fragment).  Not in the fragment: `map_with_old`,
+bind, expert nodes, `dependOn`/custom/`never`-on-map_ref cutoffs, functions with effects, memoised calls, subscriptions,
+`dropVar`, `dropHandle`, `dropAll`, `setMaxHeight`, faults; projection ids `p ≥ 999997` and user function ids
+`f ≥ 1000003` (the virtual encoding needs the id range `[projBase, fnPerKey)` for the projections).  "A node runs at most
+once per round" (`drain_once`) is not restated for the extended fragment.  No counterexample was found: the invariant is
+inductive, and 10000 random histories of the fragment (chains, re-observation) agree with the from-scratch oracle.
 -/
 namespace IncrVerif.Props.C01MapRef
-open IncrVerif.Engine IncrVerif.Proofs IncrVerif.Proofs.Sched IncrVerif.Proofs.Quiet IncrVerif.Proofs.MapRefH
+open IncrVerif.Engine IncrVerif.Driver IncrVerif.Proofs IncrVerif.Proofs.Sched IncrVerif.Proofs.Quiet IncrVerif.Proofs.MapRefH
 
 /-! ## M1: one round -/
 
@@ -103,5 +134,191 @@ theorem drainHeap_values {env : Env} {fuel : Nat} {s s' : State} (D : DrainInvR 
   obtain ⟨g, D⟩ := D
   obtain ⟨-, -, -, -, hv, hall⟩ := drainHeapR_values D h
   exact ⟨hv, hall⟩
+
+/-! ## M2: between API actions -/
+
+/-- **M2, `stabilise` with pending observers.** See `MapRefH.StabilisedR` for the fields: `inv : QInvR env s' g'`,
+`virt` (the conclusions of `C01History.stabilise_pending` for the virtual states: both observer lists empty, variables
+and kinds unchanged, round number bumped, created observers in use, disallowed ones unlinked), `values` (every
+necessary node is not stale and READS `evalR env s' k n`, which exists), `drain` (the state in which `drainHeap` starts
+satisfies the drain invariant of M1; the drain ends with it and an empty heap). -/
+theorem stabilise_pending {env : Env} {g : Nat → Option Val} {fuel : Nat} {s s' : State} (Q : QInvR env s g)
+    (h : (stabilise env fuel).run.run s = (.ok (), s')) : ∃ g', StabilisedR env fuel s s' g g' :=
+  stabiliseR Q h
+
+/-- after a `stabilise` every in-use observer reads the from-scratch value of its node; no observer is pending; no
+necessary node is stale -/
+theorem stabilise_reads {env : Env} {g : Nat → Option Val} {fuel : Nat} {s s' : State} (Q : QInvR env s g)
+    (h : (stabilise env fuel).run.run s = (.ok (), s')) :
+    ReadsOKR env s' ∧ ObsSettled s' ∧ ∀ n, s'.isNecessary n = true → s'.isStale n = false := by
+  obtain ⟨g', R⟩ := stabiliseR Q h
+  exact stabilisedR_reads R
+
+/-- **M2.** Every API action of the fragment static + map_ref that returns keeps the invariant. -/
+theorem action_keeps {env : Env} {s s' : State} {a : Action} {tokens : Array Nat} {r : String × Array Nat}
+    (Q : QInvRE env s) (ha : MapRefAction env a)
+    (h : (stepAction env a tokens).run.run s = (.ok r, s')) : QInvRE env s' :=
+  stepR Q ha h
+
+/-- the invariant gives the drain invariant of M1 once nothing is pending: what `stabilise` drains -/
+theorem inv_static {env : Env} {g : Nat → Option Val} {s : State} (Q : QInvR env s g) :
+    RFrag env s ∧ QInv (virtEnv env) (virt g s) ∧ KInv env g s := ⟨Q.frag, Q.q, Q.k⟩
+
+/-! ## M3: whole histories -/
+
+theorem init_inv (env : Env) (maxHeight : Nat) (debug : Bool) : QInvRE env (State.init maxHeight debug) :=
+  init_invR env maxHeight debug
+
+theorem history_inv {env : Env} {N : Nat} {d : Bool} {acts : List Action} {s : State} {tk : Array Nat}
+    (ha : ∀ a, a ∈ acts → MapRefAction env a)
+    (h : runActions env acts (State.init N d) #[] = .ok (s, tk)) : QInvRE env s :=
+  historyR ha h
+
+/-- **M3: C01 for programs with map_ref.** At every `stabilise` of a history of actions of the fragment that runs from
+the initial state: afterwards every observer in use reads the from-scratch value of its node. -/
+theorem history_every_stabilise {env : Env} {N : Nat} {d : Bool} {as bs : List Action} {s : State}
+    {tk : Array Nat} (ha : ∀ a, a ∈ as ++ Action.stabilise :: bs → MapRefAction env a)
+    (h : runActions env (as ++ Action.stabilise :: bs) (State.init N d) #[] = .ok (s, tk)) :
+    ∃ s1 tk1 s2, runActions env as (State.init N d) #[] = .ok (s1, tk1) ∧ QInvRE env s1 ∧
+      (stabilise env fuelDefault).run.run s1 = (.ok (), s2) ∧ QInvRE env s2 ∧
+      ReadsOKR env s2 ∧ ObsSettled s2 ∧ (∀ n, s2.isNecessary n = true → s2.isStale n = false) ∧
+      runActions env bs s2 tk1 = .ok (s, tk) := by
+  obtain ⟨s1, tk1, s2, g1, g2, h1, Q1, h2, R, h3, h4, h5, h6⟩ := historyR_stabilise ha h
+  exact ⟨s1, tk1, s2, h1, ⟨g1, Q1⟩, h2, ⟨g2, R.inv⟩, h3, h4, h5, h6⟩
+
+/-! ## non-vacuity: the two corpus histories of the repaired defects -/
+
+/-- the definitions of the corpus histories: `proj p0 id`, `proj p1 fst`, `proj p2 snd`; `fn f<i> lin m c0 c1`;
+`folddef fold<i> m a b c` -/
+def exEnvM : Env where
+  fn := fun f args =>
+    if f == fnZip then (match args with | [a, b] => .pair a b | _ => .unit)
+    else
+      let x : Int := (args.headD .unit).toInt
+      match f with
+      | 0 => .int (emod (0 + 1 * x) 7)
+      | 1 => .int (emod (2 + 2 * x) 7)
+      | 2 => .int (emod (1 + 3 * x) 7)
+      | 3 => .int (emod (1 + 2 * x) 2)
+      | 4 => .int (emod (3 + 2 * x) 3)
+      | _ => .int 0
+  fnEff := fun _ _ => []
+  foldStep := fun f acc x =>
+    match f with
+    | 0 => .int (emod (2 * acc.toInt + 3 * x.toInt + 0) 3)
+    | 1 => .int (emod (2 * acc.toInt + 2 * x.toInt + 0) 7)
+    | _ => acc
+  proj := fun p v =>
+    match p with
+    | 1 => (match v with | .pair a _ => a | o => o)
+    | 2 => (match v with | .pair _ b => b | o => o)
+    | _ => v
+  withOld := fun _ σ _ x => (σ, x, true)
+  cutoff := fun _ a b => a == b
+  body := fun _ _ => { instrs := [], ret := .outer 0 }
+  handler := fun _ _ => []
+  expertFn := fun _ _ _ => .unit
+  withOldCalls := fun _ _ _ _ => []
+  memo := fun _ => { instrs := [], ret := .abs 0 }
+  perKey := fun _ => { instrs := [], ret := .loc 0 }
+
+/-- `corpus/C01/d1_mapref_relink.hist` (D1): a map_ref node unlinked, its input changes, re-linked -/
+def histD1 : List Action :=
+  [.create (.var (.pair (.int 1) (.int 1))), .create (.mapRef 1 (.outer 0)), .create (.map 0 [.outer 1]),
+   .observe (.outer 0), .observe (.outer 2), .stabilise, .set 0 (.pair (.int 1) (.int 2)), .stabilise,
+   .dropObs 1, .set 0 (.pair (.int 2) (.int 2)), .stabilise, .observe (.outer 2), .stabilise]
+
+/-- `corpus/C01/d15_mapref_late_parent.hist` (D15): a map_ref parent links to a map_ref child with a pending change -/
+def histD15 : List Action :=
+  [.create (.var (.int 4)), .create (.var (.int 1)), .create (.var (.int 0)),
+   .create (.var (.pair (.int 0) (.int 1))), .create (.mapRef 1 (.outer 3)), .create (.mapRef 0 (.outer 4)),
+   .create (.map 0 [.outer 5]), .observe (.outer 3), .observe (.outer 6), .stabilise, .disallow 1,
+   .observe (.outer 6), .create (.mapRef 2 (.outer 4)), .disallow 2,
+   .create (.fold 0 (.int 2) [.outer 4, .outer 6, .outer 4]), .observe (.outer 5),
+   .create (.fold 1 (.int 2) [.outer 8, .outer 1, .outer 5]), .create (.mapRef 1 (.outer 0)),
+   .create (.mapRef 0 (.outer 5)), .dropObs 3, .create (.zip (.outer 9) (.outer 8)), .create (.map 1 [.outer 12]),
+   .set 3 (.pair (.int 1) (.int 1)), .create (.mapRef 2 (.outer 13)), .create (.map 2 [.outer 10]),
+   .create (.zip (.outer 3) (.outer 7)), .create (.map 3 [.outer 16]), .create (.zip (.outer 17) (.outer 11)),
+   .create (.map 4 [.outer 18]), .stabilise, .observe (.outer 19), .observe (.outer 6), .stabilise]
+
+/-- a decidable version of `MapRefAction exEnvM` for the actions used in the examples -/
+def okAction : Action → Bool
+  | .create (.const _) | .create (.var _) => true
+  | .create (.map f args) => decide (f < 5) && args.all fun o => match o with | .outer _ => true | _ => false
+  | .create (.fold _ _ cs) => cs.all fun o => match o with | .outer _ => true | _ => false
+  | .create (.zip (.outer _) (.outer _)) => true
+  | .create (.mapRef p (.outer _)) => decide (p < 3)
+  | .observe (.outer _) => true
+  | .cloneObs _ | .dropObs _ | .disallow _ => true
+  | .set _ _ | .modify _ _ | .update _ _ | .replace _ _ | .replaceWith _ _ | .get _ => true
+  | .stabilise | .isStable | .stats => true
+  | _ => false
+
+set_option linter.unusedSimpArgs false in
+theorem okAction_sound {a : Action} (h : okAction a = true) : MapRefAction exEnvM a := by
+  have hall : ∀ (l : List Opnd), (l.all fun o => match o with | .outer _ => true | _ => false) = true →
+      ∀ a, a ∈ l → OpndOK a := by
+    intro l hl a ha
+    have := List.all_eq_true.1 hl a ha
+    cases a <;> first | trivial | cases this
+  cases a <;> (try simp only [okAction] at h) <;> try (first | trivial | cases h)
+  case create i =>
+    cases i <;> (try simp only [okAction] at h) <;> try (first | trivial | cases h)
+    case map f args =>
+      simp only [Bool.and_eq_true, decide_eq_true_eq] at h
+      refine ⟨by have := h.1; unfold projBase; omega, fun _ _ => rfl, hall args h.2⟩
+    case fold f init cs => exact hall cs h
+    case zip a b =>
+      cases a <;> cases b <;> (try simp only [okAction] at h) <;> first | exact ⟨trivial, trivial⟩ | cases h
+    case mapRef p i =>
+      cases i <;> (try simp only [okAction] at h) <;> try cases h
+      simp only [decide_eq_true_eq] at h
+      exact ⟨by unfold projBase fnPerKey; omega, trivial⟩
+  case observe n => cases n <;> (try simp only [okAction] at h) <;> first | trivial | cases h
+
+theorem histD1_ok : ∀ a, a ∈ histD1 → MapRefAction exEnvM a := by
+  intro a ha
+  exact okAction_sound (List.all_eq_true.1 (by decide : histD1.all okAction = true) a ha)
+
+theorem histD15_ok : ∀ a, a ∈ histD15 → MapRefAction exEnvM a := by
+  intro a ha
+  exact okAction_sound (List.all_eq_true.1 (by decide : histD15.all okAction = true) a ha)
+
+/-- did the history run? -/
+def ranOk (env : Env) (acts : List Action) : Bool :=
+  match runActions env acts (State.init 128 true) #[] with
+  | .ok _ => true
+  | .error _ => false
+
+/-- what observer `o` reads after the history -/
+def readAfter (env : Env) (acts : List Action) (o : Nat) : Option Val :=
+  match runActions env acts (State.init 128 true) #[] with
+  | .ok (s, _) => match s.tryGetValue env o with | .ok v => some v | .error _ => none
+  | .error _ => none
+
+theorem ranOk_iff {env : Env} {acts : List Action} (h : ranOk env acts = true) :
+    ∃ s tk, runActions env acts (State.init 128 true) #[] = .ok (s, tk) := by
+  unfold ranOk at h
+  rcases hx : runActions env acts (State.init 128 true) #[] with e | ⟨s, tk⟩
+  · rw [hx] at h; cases h
+  · exact ⟨s, tk, rfl⟩
+
+set_option maxRecDepth 100000 in
+/-- both corpus histories run (so `history_every_stabilise` applies to each of their `stabilise`s) and their final
+states satisfy the invariant -/
+example : (∃ s tk, runActions exEnvM histD1 (State.init 128 true) #[] = .ok (s, tk) ∧ QInvRE exEnvM s) ∧
+    (∃ s tk, runActions exEnvM histD15 (State.init 128 true) #[] = .ok (s, tk) ∧ QInvRE exEnvM s) := by
+  obtain ⟨s, tk, h⟩ := ranOk_iff (env := exEnvM) (acts := histD1) (by decide +kernel)
+  obtain ⟨s', tk', h'⟩ := ranOk_iff (env := exEnvM) (acts := histD15) (by decide +kernel)
+  exact ⟨⟨s, tk, h, history_inv histD1_ok h⟩, ⟨s', tk', h', history_inv histD15_ok h'⟩⟩
+
+set_option maxRecDepth 100000 in
+/-- D1: after the map_ref node was unlinked, its input changed twice, and it was re-linked, the dependant `n2 = f0(fst v0)`
+reads `fst (2,2) = 2` (the defect read the stale `1`); D15: the late map_ref parent's dependant `n6` reads `1`, `n19`
+reads `2` -/
+example : readAfter exEnvM histD1 0 = some (.pair (.int 2) (.int 2)) ∧ readAfter exEnvM histD1 2 = some (.int 2) ∧
+    readAfter exEnvM histD15 0 = some (.pair (.int 1) (.int 1)) ∧ readAfter exEnvM histD15 4 = some (.int 2) ∧
+    readAfter exEnvM histD15 5 = some (.int 1) :=
+  ⟨by decide +kernel, by decide +kernel, by decide +kernel, by decide +kernel, by decide +kernel⟩
 
 end IncrVerif.Props.C01MapRef
